@@ -119,6 +119,7 @@ class Interp:
         self.steps = 0
         self.enum_cache: Dict[str, Dict[str, EnumVal]] = {}
         self.dynamic_enums: Dict[str, str] = {}
+        self.overrides: Dict[str, Any] = {"HAS_CGRANGES": False}
         self.trace_calls: List[str] = []
 
     # ---- enums --------------------------------------------------------------------
@@ -179,7 +180,17 @@ class Interp:
         a = func.node.args
         if func.cls is not None and not func.is_static:
             if params:
-                env[params[0]] = self_val if not func.is_classmethod else ClassTok(func.cls.name)
+                if func.is_classmethod:
+                    if isinstance(self_val, ClassTok):
+                        env[params[0]] = self_val
+                    elif isinstance(self_val, Obj):
+                        env[params[0]] = ClassTok(self_val.cls_name)
+                    elif isinstance(self_val, EnumVal):
+                        env[params[0]] = ClassTok(self_val.cls)
+                    else:
+                        env[params[0]] = ClassTok(func.cls.name)
+                else:
+                    env[params[0]] = self_val
                 params = params[1:]
         if len(args) > len(params) and not a.vararg:
             raise Uninterpretable(f"too many positional arguments for {func.qual}")
@@ -282,6 +293,10 @@ class Interp:
             raise Raised("AttributeError", f"NoneType.{name}")
         if isinstance(obj, Opaque):
             return Opaque(f"{obj.what}.{name}")
+        if isinstance(obj, tuple) and len(obj) == 2 and obj[0] == "builtin" and obj[1] in ("set", "frozenset"):
+            return ("setfn", name)
+        if isinstance(obj, tuple) and len(obj) == 2 and obj[0] == "builtin" and obj[1] in ("str", "dict", "list"):
+            return ("native", getattr({"str": str, "dict": dict, "list": list}[obj[1]], name))
         if isinstance(obj, tuple) and len(obj) == 2 and obj[0] == "pymodule":
             if obj[1] == "warnings":
                 return ("native", lambda *a, **k: None)
@@ -444,7 +459,8 @@ class Interp:
     def iterate(self, it):
         if isinstance(it, (list, tuple, set, frozenset, range, dict, str)):
             return list(it)
-        if type(it).__name__ in ("dict_items", "dict_keys", "dict_values", "zip", "map", "filter", "enumerate"):
+        if type(it).__name__ in ("dict_items", "dict_keys", "dict_values", "zip", "map", "filter", "enumerate", "chain",
+                                 "groupby", "_grouper", "islice", "count", "product"):
             return list(it)
         if isinstance(it, ClassTok) and self.is_enum_class(it.name):
             seen, out = set(), []
@@ -455,6 +471,10 @@ class Interp:
             return out
         if isinstance(it, _Gen):
             return it.items
+        if isinstance(it, Obj):
+            m = self.method(it, "__iter__")
+            if m is not None:
+                return self.iterate(self.call_func(m, [], {}, it, 1))
         raise Uninterpretable(f"iteration over {type(it).__name__}")
 
     # ---- expressions ------------------------------------------------------------------
@@ -633,6 +653,8 @@ class Interp:
         if t is ast.Name:
             if n.id in env:
                 return env[n.id]
+            if n.id in self.overrides:
+                return self.overrides[n.id]
             if n.id in ("True", "False", "None"):
                 return {"True": True, "False": False, "None": None}[n.id]
             if self.repo.has_cls(n.id):
@@ -642,7 +664,7 @@ class Interp:
                 return ("bound", mod.funcs[n.id], None)
             if mod is not None and n.id in mod.assigns:
                 return self.eval(mod.assigns[n.id], {}, func, depth)
-            if mod is not None and n.id in mod.imports and mod.imports[n.id][0] in ("re", "math", "hashlib") \
+            if mod is not None and n.id in mod.imports and mod.imports[n.id][0] in ("re", "math", "hashlib", "itertools") \
                     and mod.imports[n.id][1] is None:
                 return ("pymodule", mod.imports[n.id][0])
             if mod is not None and n.id in mod.imports and mod.imports[n.id] == ("uuid", "UUID"):
@@ -951,9 +973,28 @@ class Interp:
             args = [self.eval(a, env, func, depth) for a in n.args]
             kwargs = {k.arg: self.eval(k.value, env, func, depth) for k in n.keywords if k.arg}
             return self.hooks[nm](self, None, args, kwargs)
-        if nm == "super" or (isinstance(n.func, ast.Attribute) and isinstance(n.func.value, ast.Call)
-                             and dotted(n.func.value.func) == "super"):
-            raise Uninterpretable("super()")
+        if isinstance(n.func, ast.Attribute) and isinstance(n.func.value, ast.Call) \
+                and dotted(n.func.value.func) == "super" and not n.func.value.args and func is not None \
+                and func.cls is not None:
+            selfv = env.get(func.pos_params[0]) if func.pos_params else None
+            start_cls = self.repo.cls(selfv.cls_name) if isinstance(selfv, Obj) and self.repo.has_cls(selfv.cls_name) else func.cls
+            mro = self.repo.mro(start_cls)
+            names = [k.qual for k in mro]
+            idx = names.index(func.cls.qual) if func.cls.qual in names else -1
+            target = None
+            for k in mro[idx + 1:]:
+                if n.func.attr in k.methods:
+                    target = k.methods[n.func.attr]
+                    break
+            if target is None:
+                if n.func.attr in ("__init__", "__new__"):
+                    return None
+                raise Uninterpretable(f"super().{n.func.attr} not found from {func.qual}")
+            args = [self.eval(a, env, func, depth) for a in n.args]
+            kwargs = {k.arg: self.eval(k.value, env, func, depth) for k in n.keywords if k.arg}
+            return self.call_func(target, args, kwargs, selfv, depth + 1)
+        if nm == "super":
+            raise Uninterpretable("bare super()")
         f = self.eval(n.func, env, func, depth)
         args = []
         for a in n.args:
@@ -1033,6 +1074,10 @@ class Interp:
                 raise Raised("KeyError")
             except (IndexError,):
                 raise Raised("IndexError")
+        if isinstance(f, tuple) and f and f[0] == "setfn":
+            if not args:
+                return SetVal()
+            return self.set_method(self._dedupe(self.iterate(args[0]), depth), f[1], args[1:], depth)
         if isinstance(f, tuple) and f and f[0] == "native":
             def wrap(a):
                 if isinstance(a, tuple) and a and a[0] in ("lambda", "closure", "bound"):
@@ -1143,6 +1188,11 @@ class Interp:
             if not args:
                 return ""
             return self.py_str(args[0], depth) if name == "str" else self.py_repr(args[0], depth)
+        if name == "print":
+            fh = kwargs.get("file")
+            if isinstance(fh, list):
+                fh.extend(" ".join(self.py_str(a, depth) for a in args).split("\n"))
+            return None
         if name == "hash":
             return Opaque("hash")
         if name == "slice":
